@@ -31,12 +31,12 @@ TOW = [("west_mast", 50.001, 10.002, 5.0), ("hill_top", 50, 10.0005, 7), ("east_
 
 
 def lattice(tier):
-    for nt, ns, threed, vc, dt, ts, forcing in itertools.product((1, 2, 3, 4), (1, 2, 3, 4), (False, True), ("index", "negative", "denormal", "huge", "simple-flx"), ("float64", "float32"), ("iso", "index", "width"), ("ustar", "z0-list", "z0-scalar")):
+    for nt, ns, threed, vc, dt, ts, forcing in itertools.product((1, 2, 3, 4), (1, 2, 3, 4), (False, True), ("index", "negative", "denormal", "huge", "simple-flx", "near-max"), ("float64", "float32"), ("iso", "index", "width", "epoch"), ("ustar", "z0-list", "z0-scalar")):
         if forcing == "z0-scalar" and ns != 1:
             continue
         if tier == "quick" and vc != "index" and not (nt in (1, 3) and ns in (1, 2)):
             continue
-        if dt == "float32" and vc in ("denormal", "huge", "simple-flx"):
+        if dt == "float32" and vc in ("denormal", "huge", "simple-flx", "near-max"):
             continue  # not representable
         yield {"nt": nt, "ns": ns, "threed": threed, "values": vc, "dtype": dt, "ts": ts, "forcing": forcing}
 
@@ -61,6 +61,9 @@ def build(case):
     elif case["ts"] == "width":
         # labels of different printed widths, narrowest first (integers crossing a power of ten, mixed date / date-time strings)
         met["timestamps"] = ([8, 9, 10, 11] if case["nt"] % 2 else ["9:30", "10:00", "2024-03-01", "2024-03-01T10:00"])[:ns]
+    elif case["ts"] == "epoch":
+        # numeric labels with many significant digits: seconds since 1970 (integers), fractional day numbers (floats)
+        met["timestamps"] = ([1709272800, 1709274600, 1709276400, 1709278200] if case["nt"] % 2 else [20240301.25, 20240301.5, 20240301.75, 20240302.0])[:ns]
     cfg = parse_config_dict({
         "domain": {"nx": NX, "ny": NY, "xmax": 50.0, "ymax": 45.0, "nz": 4, "ref_lat": 50.0, "ref_lon": 10.0},
         "towers": [{"name": n, "lat": la, "lon": lo, "z_m": z} for n, la, lo, z in TOW[:nt]],
@@ -91,6 +94,9 @@ def build(case):
                 # footprints that happen to be exactly representable in single precision (whole numbers, zeros) next to
                 # concentrations that are not
                 flx, conc = np.floor(code) * (i % 2), -(code + 1.0 / 7.0) * 1e-3
+            elif case["values"] == "near-max":
+                # every value finite, but close enough to the largest double that their SUM is not (3.3e4 * 5e303 = 1.7e308)
+                flx, conc = code * 5e303, -code * 5e303
             else:
                 flx, conc = code * 1e30, -code * 1.7e300
             step = cfg.met.get_step(s)
